@@ -63,6 +63,11 @@ pub mod mm {
     /// Returns the approximate reciprocal of the square root of `x`.
     #[inline]
     pub fn recip_sqrt(x: f32) -> f32 {
+        // The bit trick behind `invsqrt` presumes a normal number;
+        // bring subnormal ones into range first
+        if x > 0.0 && x < f32::MIN_POSITIVE {
+            return 4096.0 * recip_sqrt(16_777_216.0 * x);
+        }
         let y = mm::invsqrt(x);
         // A round of Newton's method
         y * (1.5 - 0.5 * x * y * y)
@@ -131,6 +136,11 @@ pub mod fallback {
     /// Returns the approximate reciprocal of the square root of `x`.
     #[inline]
     pub fn recip_sqrt(x: f32) -> f32 {
+        // The bit trick below presumes a normal number;
+        // bring subnormal ones into range first
+        if x > 0.0 && x < f32::MIN_POSITIVE {
+            return 4096.0 * recip_sqrt(16_777_216.0 * x);
+        }
         // https://en.wikipedia.org/wiki/Fast_inverse_square_root
         let y = f32::from_bits(0x5f37_5a86 - (x.to_bits() >> 1));
         // A round of Newton's method
